@@ -5,7 +5,7 @@ set -u
 id="$1"; w=/tmp/mut/$id
 cd "$w" || exit 2
 export CARGO_NET_OFFLINE=true
-git diff -- src > /tmp/mut/$id.patch
+git diff -- src ffi/src > /tmp/mut/$id.patch
 [ -s /tmp/mut/$id.patch ] || { echo "no change in src"; exit 2; }
 base=$(cargo test --workspace --no-fail-fast --offline 2>&1 | grep -E "^test result" | awk '{p+=$4; f+=$6} END {print p" passed "f" failed"}')
 echo "baseline with change: $base"
